@@ -318,4 +318,7 @@ func rulesC09(e *Engine, r *Report) {
 	// ---------------------------------------------------------------- R09.7
 	r.Rule("R09.7", "ranges on record describe the partial that exists NOW: when a file that failed validation is announced again its partial is created anew (zero-filled), so the complete companion of the failed attempt must be gone before new ranges are recorded - removed by the validator on every failure path or by the stage-file initialiser on every `state == failed` path; else the first part of the retry is merged into a record that lists ranges never written to the new partial and the file counts as complete at once - shared with R03.5")
 	e.checkFailedCompanionDiscarded(r, "R09.7")
+	// ---------------------------------------------------------------- R09.8
+	r.Rule("R09.8", "one lock table per source: the per-file locks that serialise the companion's read-modify-write live in the source's gatekeeper, so there must be exactly one gatekeeper per source - getGateKeeper builds and files it atomically (factory and store under the table's write lock after a second look-up) - shared with R15.7")
+	e.checkGateKeeperOnce(r, "R09.8")
 }
